@@ -212,3 +212,10 @@ func parseReply(p []byte) (r wreply) {
 	}
 	return
 }
+
+// logSink swallows what the programs log.  It is not io.Discard: for that writer the log package skips the formatting altogether, and
+// with it every String method and every slice expression in the arguments of a log line - code of the tree under test that runs
+// in production with every packet.
+type logSink struct{}
+
+func (logSink) Write(p []byte) (int, error) { return len(p), nil }
